@@ -527,3 +527,46 @@ Example C20_generated_nonvacuous :
   | _ => False
   end.
 Proof. vm_compute. split; reflexivity. Qed.
+
+(* 1c. Totality over what encoding/json decodes an arbitrary interface definition to: a parameter list
+       may hold null entries ("params":[null] -> a nil *FFIParam; [None] here).  The three conversions
+       never panic on such lists either, a definition with a null entry anywhere (inputs or outputs, any
+       position) is an error, and on lists without one the conversions are those of 0a-3. *)
+Theorem C20_total_nil_params :
+  forall (name : bytes) (params returns : list (option pin)),
+    ConvertFFIMethodToABI_opt name params returns <> Panic /\
+    ConvertFFIEventDefinitionToABI_opt name params <> Panic /\
+    ConvertFFIErrorDefinitionToABI_opt name params <> Panic.
+Proof. exact conversion_total_nil_params. Qed.
+Print Assumptions C20_total_nil_params.
+
+Theorem C20_nil_param_rejected :
+  forall (name : bytes) (params returns : list (option pin)),
+    (In None (params ++ returns) -> exists e, ConvertFFIMethodToABI_opt name params returns = Err e) /\
+    (In None params -> exists e, ConvertFFIEventDefinitionToABI_opt name params = Err e) /\
+    (In None params -> exists e, ConvertFFIErrorDefinitionToABI_opt name params = Err e).
+Proof. exact nil_param_rejected. Qed.
+Print Assumptions C20_nil_param_rejected.
+
+Theorem C20_nil_params_conservative :
+  forall (name : bytes) (params returns : list pin),
+    ConvertFFIMethodToABI_opt name (map Some params) (map Some returns) = ConvertFFIMethodToABI name params returns /\
+    ConvertFFIEventDefinitionToABI_opt name (map Some params) = ConvertFFIEventDefinitionToABI name params /\
+    ConvertFFIErrorDefinitionToABI_opt name (map Some params) = ConvertFFIErrorDefinitionToABI name params.
+Proof. exact opt_conversions_some. Qed.
+Print Assumptions C20_nil_params_conservative.
+
+(* non-vacuity: null first / in the middle / last, among the inputs and the outputs; without one the
+   definition converts *)
+Example C20_nil_params_nonvacuous :
+  let det t := Some (mkDetails (str t) [] false None) in
+  let good := Some (mkPin (str "a") true (Some (Some (Schema (str "string") None (det "string") [] None)))) in
+  is_err (ConvertFFIMethodToABI_opt (str "f") [None] []) = true /\
+  is_err (ConvertFFIMethodToABI_opt (str "f") [None; good] []) = true /\
+  is_err (ConvertFFIMethodToABI_opt (str "f") [good; None; good] []) = true /\
+  is_err (ConvertFFIMethodToABI_opt (str "f") [good; good; None] []) = true /\
+  is_err (ConvertFFIMethodToABI_opt (str "f") [good] [good; None]) = true /\
+  is_err (ConvertFFIEventDefinitionToABI_opt (str "e") [good; None]) = true /\
+  is_err (ConvertFFIErrorDefinitionToABI_opt (str "r") [None; good]) = true /\
+  is_ok (ConvertFFIMethodToABI_opt (str "f") [good; good] [good]) = true.
+Proof. vm_compute. repeat split. Qed.
